@@ -2,6 +2,8 @@ CONSTANTS
   N = 5
   K = 0
   Coupled = TRUE
+  B = 0
+  HCap = 0
 SPECIFICATION Spec
 INVARIANT NoDeadlock
 
